@@ -55,6 +55,17 @@ def make_targets(lab):
         def gen(self, n):
             return (i for i in range(n))
 
+        @P.oneway
+        def otrack(self, rid):
+            # the same through a oneway call, which the daemon runs in a thread of its own on behalf of that connection
+            lab.current_context.track_resource(lab.resources[rid])
+            lab.log.append({"e": "Track", "c": lab.conn_of_context(), "r": rid})
+
+        @P.oneway
+        def ountrack(self, rid):
+            lab.current_context.untrack_resource(lab.resources[rid])
+            lab.log.append({"e": "Untrack", "c": lab.conn_of_context(), "r": rid})
+
         def untrack(self, rid):
             lab.current_context.untrack_resource(lab.resources[rid])
             lab.log.append({"e": "Untrack", "c": lab.conn_of_context(), "r": rid})
@@ -148,12 +159,16 @@ def mark_ended(lab, cid, since):
     lab.log.insert(idx, {"e": "Ended", "c": cid})
 
 
-def run_scenarios(scens, servertype, timeout, seed):
+def run_scenarios(scens, servertype, timeout, seed, streaming=True):
+    """streaming: the daemon's ITER_STREAMING setting (off: results that are iterators are not turned into streams; everything
+    else about a connection's end is the same)"""
+    from Pyro5 import protocol, config
     rng = random.Random(seed)
     traces = []
 
     def fresh_lab():
         lab = L.Lab(servertype=servertype, commtimeout=timeout)
+        config.ITER_STREAMING = streaming
         T, Sess = make_targets(lab)
         lab.daemon.register(T(), "target")
         lab.daemon.register(Sess, "sess")
@@ -187,11 +202,21 @@ def run_scenarios(scens, servertype, timeout, seed):
                 by = established(lab, ser) if scen["bystander"] else None
                 sc.quiesce()
                 seq = 1
+                via_oneway = scen_no % 3 == 1        # every third scenario tracks (and untracks) through oneway calls
                 for r in range(1, scen["ntrack"] + 1):
-                    call(victim, "target", "track", [r], ser, seq)
+                    if via_oneway:
+                        victim.send(L.invoke_msg("target", "otrack", [r], ser=ser, seq=seq, flags=protocol.FLAGS_ONEWAY))
+                    else:
+                        call(victim, "target", "track", [r], ser, seq)
                     seq += 1
+                if via_oneway:
+                    sc.quiesce()        # the oneway threads have done their work
                 if scen["untrack"]:
-                    call(victim, "target", "untrack", [1], ser, seq)
+                    if via_oneway:
+                        victim.send(L.invoke_msg("target", "ountrack", [1], ser=ser, seq=seq, flags=protocol.FLAGS_ONEWAY))
+                        sc.quiesce()
+                    else:
+                        call(victim, "target", "untrack", [1], ser, seq)
                     seq += 1
                 if scen["session"]:
                     if by is not None:
@@ -206,7 +231,7 @@ def run_scenarios(scens, servertype, timeout, seed):
                     if lab.ctor_resource is None:
                         lab.log.append({"e": "Track", "c": victim.cid, "r": 3})       # tracked by the constructor, for the victim's connection
                     lab.ctor_resource = None
-                if scen.get("stream"):
+                if scen.get("stream") and streaming:
                     call(victim, "target", "gen", [5], ser, seq)      # an unfinished streamed result stays behind
                     seq += 1
                     if by is not None:
@@ -299,8 +324,14 @@ def run(ctx):
                                                              "hookraise": False, "ser": "serpent", "server": st, "timeout": 0.0, "offset": off})
     traces, metas = [], []
     for (st, tmo), js in sorted(groups.items()):
-        traces += run_scenarios(js, st, tmo, ctx.seed)
-        metas += js
+        # every fifth scenario runs against a daemon that has item streaming switched off
+        on = [j for n, j in enumerate(js) if n % 5 != 4 or "offset" in j]
+        off = [dict(j, streaming=False) for n, j in enumerate(js) if n % 5 == 4 and "offset" not in j]
+        traces += run_scenarios(on, st, tmo, ctx.seed)
+        metas += on
+        if off:
+            traces += run_scenarios(off, st, tmo, ctx.seed, streaming=False)
+            metas += off
     for m in metas:
         ctx.count(json.dumps(m, sort_keys=True))
     for i in (0, len(traces) // 2, len(traces) - 1):
@@ -313,7 +344,7 @@ def run(ctx):
         if tr[-1].get("hang"):
             v13 = v13 or "C13.Hang"
         if v13:
-            ctx.violation("%s [ending=%s server=%s%s]" % (v13, m["ending"], m["server"], (" hookraise" if m["hookraise"] else "") + (" resraise" if m.get("resraise") else "") + (" stream" if m.get("stream") else "")),
+            ctx.violation("%s [ending=%s server=%s%s]" % (v13, m["ending"], m["server"], (" hookraise" if m["hookraise"] else "") + (" resraise" if m.get("resraise") else "") + (" stream" if m.get("stream") else "") + (" streaming-off" if m.get("streaming") is False else "")),
                           {"scenario": m, "trace": tr})
     if not ctx.violations and (hooks < len(traces) // 2 or rcl < len(traces) // 4):
         raise util.MachineryError("vacuity: hooks=%d resource closes=%d over %d traces" % (hooks, rcl, len(traces)))
@@ -327,7 +358,7 @@ def replay(ctx, path):
     bad = 0
     for case in rep["cases"]:
         m = case["scenario"]
-        tr = run_scenarios([m], m["server"], m["timeout"], ctx.seed)[0]
+        tr = run_scenarios([m], m["server"], m["timeout"], ctx.seed, streaming=m.get("streaming", True))[0]
         v, _ = tlc.validate(ctx, "Trace_Daemon", [tr], cfg="Trace_Daemon.cfg")
         print("replay:", m, "->", v[0].split("|")[1] or "accepted")
         for e in tr:
